@@ -105,6 +105,10 @@ def update_param_state_dict_object(
 ) -> None:
     for k, v in current_param_state_dict.items():
         if k not in param_state_dict_to_load:
+            # NOTE: flatten() drops entries without any leaf (e.g., the Kronecker factors of a block without
+            # preconditioned dimensions), so such entries are legitimately absent from a saved state dict.
+            if not flatten(extract_state_dict_content({k: v})):
+                continue
             if enable_missing_key_check:
                 raise KeyError(f"Key {k} not found in state dict to load.")
             else:
